@@ -423,4 +423,167 @@ example : jumpsLocal [.op 1, .cjf 0 3, .op 2, .jb 2] = true := by decide
 example : jumpsLocal [.op 1, .jf 5] = false := by decide
 example : jumpsLocal [.jb 1, .op 1] = false := by decide
 
+/-! ## Layer 3: what a rejected piece leaves on the shared compiler -/
+
+/-- **The property as stated, for the compiler's own state**: for every history of piece
+    compilations, every piece is compiled exactly as a compiler that has seen no earlier piece
+    would compile it — same emitted instruction forms, same acceptance, nothing left set. -/
+def C18_marks_full : Prop := ∀ h : List (List CEv), (∀ evs ∈ h, balancedFrom 0 evs = true) → marksRun [] h = marksSpec h
+
+/-- **marks_partial.**  For EVERY history of piece compilations (any number of pieces, accepted
+    and rejected ones in any order, any nesting of pipes, loops, blocks, switches) in which
+    `enter`/`leave` are bracketed and every compile error surfaces outside a function literal
+    (`marksGuard`), every piece — in particular every piece that follows a REJECTED one — is
+    compiled exactly as by a fresh compiler: the instruction forms (`Call` vs `Partial`, …) do not
+    depend on the pieces before it and no compile-only mark survives a Compile call. -/
+theorem marks_partial (h : List (List CEv)) (hg : marksGuard h = true) : marksRun [] h = marksSpec h := by
+  induction h with
+  | nil => rfl
+  | cons evs rest ih =>
+    simp only [marksGuard, List.all_cons, Bool.and_eq_true] at hg
+    have hown := compileEvs_own_nil [] evs [] hg.1.1 hg.1.2
+    simp only [marksRun, marksSpec, List.map_cons, hown, List.append_nil]
+    rw [ih (by simpa [marksGuard] using hg.2)]
+    rfl
+
+/-- **Nothing survives a Compile call** whose marks are all restored on the error path (as
+    `pipeActive`, `loops`, `symbols`, `pendingSwitchValues` are): for every bracketed event
+    sequence, accepted or rejected at any point, and whatever earlier calls left set. -/
+theorem marks_restored (inh : List Mark) (evs : List CEv) (hb : balancedFrom 0 evs = true)
+    (hm : ∀ m ∈ marksOf evs, m.restored = true) : (compileEvs inh [] evs).own = [] :=
+  compileEvs_own_nil inh evs [] hb (errClean_of_restored evs [] (by simp) hm)
+
+/-- the four marks that are restored on the error path, and the one that is not -/
+theorem marks_table : Mark.pipe.restored = true ∧ Mark.loop.restored = true ∧ Mark.block.restored = true ∧
+    Mark.switchVal.restored = true ∧ Mark.fn.restored = false := by decide
+
+/-- `func() { undefined }` / `f(1)`: the second piece is emitted inside the dead function -/
+def w_marks_fn : List (List CEv) := [[.enter .fn, .err], [.emit 1 [.pipe, .fn]]]
+
+/-- **Counterexample (compile-only state survives a rejected piece)**: `Compiler.current` is not
+    restored when the error surfaces inside a function literal (finding C18-compiler-stuck-in-function). -/
+theorem C18_counterexample_marks : ¬ C18_marks_full := fun h => by
+  have := h w_marks_fn (by decide)
+  revert this
+  decide
+
+/-- a rejected pipe (`xs | sorted | undefined`) followed by a call and a pipe: inside the guard,
+    the call is emitted as `Call` (under no mark), the call inside the later pipe as `Partial` -/
+def w_marks_pipe : List (List CEv) :=
+  [[.enter .pipe, .emit 1 [], .err], [.emit 2 [.pipe]], [.enter .pipe, .emit 3 [.pipe], .emit 4 [], .leave]]
+
+example : marksGuard w_marks_pipe = true := by decide
+example : (marksRun [] w_marks_pipe).map (·.code) = [[(1, [])], [(2, [])], [(3, [.pipe]), (4, [])]] := by decide
+example : marksGuard w_marks_fn = false := by decide
+
+/-! ## Layer 4: the time a function is bound to a generation of the globals -/
+
+def bindImplVals (h : List (List TStmt)) : List (Option Int) := (bindRun {} (fun _ _ => 0) h).1
+def bindSpecVals (h : List (List TStmt)) : List (Option Int) := (bindSpec (fun _ => none) (fun _ _ => 0) h).1
+
+/-- **The property as stated, for globals and functions**: every piece yields the value it yields
+    when all reads and writes go to one globals array (the concatenated program). -/
+def C18_binding_full : Prop := ∀ h : List (List TStmt), bindImplVals h = bindSpecVals h
+
+/-- **binding_partial.**  For EVERY history (any number of pieces; function declarations in any
+    piece; calls in any later piece; globals read, written and re-assigned by functions and by
+    top-level code in any order; any integer values) in which every read — by top-level code
+    through the current generation, by a function through the generation it was bound to when the
+    piece declaring it was first run — goes to a slot that holds the up-to-date value (`bindGuard`,
+    decidable), every piece yields exactly the value the concatenated program yields, and after
+    the history every global whose current slot is marked valid holds the whole program's value.
+    In particular functions bound by the SAME run keep communicating through their common
+    generation however many pieces later they are first called. -/
+theorem binding_partial (h : List (List TStmt)) (hg : bindGuard h = true) :
+    bindImplVals h = bindSpecVals h ∧
+    ∀ c V, bindGuardFrom {} (fun _ _ => true) h = some (c, V) →
+      (bindRun {} (fun _ _ => 0) h).2.1 = c ∧
+      ∀ g, V g c.cur = true → (bindRun {} (fun _ _ => 0) h).2.2 c.cur g = (bindSpec (fun _ => none) (fun _ _ => 0) h).2.2 0 g := by
+  simp only [bindGuard, Option.isSome_iff_exists] at hg
+  obtain ⟨⟨c, V⟩, hcv⟩ := hg
+  have h0 : Agree (fun _ _ => true) (fun _ _ => (0 : Int)) (fun _ _ => 0) := fun _ _ _ => rfl
+  obtain ⟨e1, e2, h2⟩ := bindRun_agree h {} _ _ _ c V h0 hcv
+  refine ⟨e1, ?_⟩
+  intro c' V' hcv'
+  rw [hcv] at hcv'
+  simp only [Option.some.injEq, Prod.mk.injEq] at hcv'
+  obtain ⟨hc, hV⟩ := hcv'
+  subst hc; subst hV
+  exact ⟨e2, fun g hv => h2 g c.cur hv⟩
+
+/-- **Binding time.**  After a piece has been fed, every function constant of the main code is
+    bound, and one that was not bound before is bound to the generation of THIS run — for every
+    control state and every piece. -/
+theorem bound_at_declaring_run (c : BCtl) (l : List TStmt) (f : Nat) (d : FnDef)
+    (hd : (c.next l).defs f = some d) (hb : c.bind f = none) : (c.next l).bind f = some (c.next l).cur := by
+  simp only [BCtl.next] at hd ⊢
+  simp [hb, hd]
+
+/-- once bound, a function stays bound to the same generation -/
+theorem binding_is_stable (c : BCtl) (l : List TStmt) (f k : Nat) (hb : c.bind f = some k) :
+    (c.next l).bind f = some k := by
+  simp [BCtl.next, hb]
+
+/-- `x := 1; func f() { return x }` / `x = 5` / `f()` (globals: x = 0; functions: f = 0) -/
+def w_bind_stale : List (List TStmt) :=
+  [[.set 0 (.lit 1), .defn 0 ⟨[], .glob 0⟩], [.set 0 (.lit 5)], [.expr (.call 0 (.lit 0))]]
+
+/-- **Counterexample (functions keep the generation they were bound to)**: `f()` yields 1, the
+    concatenated program 5 (finding C18-function-globals-snapshot). -/
+theorem C18_counterexample_binding : ¬ C18_binding_full := fun h => by
+  have := h w_bind_stale
+  revert this
+  decide
+
+/-- `total := 0` / `func add(n) { total = total + n }; func report() { return total }` / `add(5)` /
+    `add(7); report()`: declared together in a non-first piece, first called in different pieces -/
+def w_bind_together : List (List TStmt) :=
+  [[.set 0 (.lit 0)],
+   [.defn 0 ⟨[(0, .add (.glob 0) .arg)], .glob 0⟩, .defn 1 ⟨[], .glob 0⟩],
+   [.expr (.call 0 (.lit 5))],
+   [.expr (.call 0 (.lit 7)), .expr (.call 1 (.lit 0))]]
+
+example : bindGuard w_bind_together = true := by decide
+example : bindImplVals w_bind_together = [none, none, some 5, some 12] := by decide
+example : bindGuard w_bind_stale = false := by decide
+
+/-! ## Layer 5: per-piece contexts and the halt flag -/
+
+/-- **The context of a piece is invisible.**  For EVERY history of pieces, each run with its own
+    context (background, cancellable, or done before the run ends — the piece is then one that
+    fails at run time), the machine with the halt flag yields exactly the outcomes and the state
+    of the machine without it: what a run's context did to the halt flag never reaches a later
+    piece, whatever that piece's context is. -/
+theorem ctx_invisible (l : List (Ctx × Piece)) : ∀ (h : HRepl),
+    (h.run l).2 = (h.r.run (l.map (·.2))).2 ∧ (h.run l).1.r = (h.r.run (l.map (·.2))).1 := by
+  induction l with
+  | nil => intro h; exact ⟨rfl, rfl⟩
+  | cons cp rest ih =>
+    intro h
+    obtain ⟨c, p⟩ := cp
+    have hs : startClearsHalt c = true := by cases c <;> decide
+    have hf : (h.feed c p).2 = (h.r.feed p).2 ∧ (h.feed c p).1.r = (h.r.feed p).1 := by
+      simp only [HRepl.feed, hs, ↓reduceIte, Bool.false_eq_true]
+      cases (h.r.feed p).2 <;> exact ⟨rfl, rfl⟩
+    obtain ⟨i1, i2⟩ := ih (h.feed c p).1
+    simp only [HRepl.run, Repl.run, List.map_cons]
+    rw [i2, hf.2] at *
+    rw [i1, hf.1]
+    exact ⟨rfl, rfl⟩
+
+/-- **C18_partial with per-piece contexts.**  For every assignment of contexts to the pieces of a
+    history inside `guard`, the machine with the halt flag yields the Spec's outcomes, trace and
+    definitions: later pieces behave as in the whole program made of the pieces that completed. -/
+theorem C18_partial_ctx (l : List (Ctx × Piece)) (hg : guard (l.map (·.2)) = true) :
+    (⟨((HRepl.run {} l).2), (HRepl.run {} l).1.r.vm.trace, (HRepl.run {} l).1.r.comp.syms⟩ : Obs) = specObs (l.map (·.2)) := by
+  obtain ⟨h1, h2⟩ := ctx_invisible l {}
+  rw [h1, h2]
+  exact C18_partial _ hg
+
+/-- a piece ended by its context (`for { }`, a failing statement without effect) between ordinary
+    pieces run with the background context -/
+example : (HRepl.run {} [(.background, .stmts [{ id := 1, vdecl := [1] }]),
+    (.done, .stmts [{ id := 2, isExpr := true, leaves := true, fails := true }]),
+    (.background, .stmts [{ id := 3, isExpr := true, leaves := true, uses := [1] }])]).2 = [.ok 0, .failed, .ok 3] := by decide
+
 end Risor.C18
